@@ -79,3 +79,102 @@ def interval(r: Rat, ranges):
     lo = None if n_lo is None or d_hi is None else n_lo - d_hi
     hi = None if d_lo is None else n_hi - d_lo
     return lo, hi
+
+
+# ---- log-linear forms and conditional bounds (a small polyhedral domain) -------------------------------------------
+def loglinear(r: Rat, ranges) -> tuple[float, dict]:
+    """log10 |r| = const + sum coeff[name] * log10(name) for a power product r; raises Unbounded otherwise."""
+    const, coeff = 0.0, {}
+
+    def add_atom(a, e: float):
+        nonlocal const
+        if a.kind == 'sym':
+            if a.name in ranges:
+                coeff[a.name] = coeff.get(a.name, 0.0) + e
+            elif a.name in CONSTANTS:
+                const += e * math.log10(CONSTANTS[a.name])
+            else:
+                raise Unbounded(f'no range for {a.name}')
+        elif a.kind == 'prime':
+            const += e * math.log10(int(a.name))
+        elif a.kind == 'norm':
+            v = T.A(a.args[0])
+            key = f'|{v.name}|'
+            if v.kind != 'vsym' or key not in ranges:
+                raise Unbounded(f'no range for the length of {v.name}')
+            coeff[key] = coeff.get(key, 0.0) + e
+        elif a.kind == 'fn' and f'fn:{a.name}' in ranges:
+            key = f'fn:{a.name}'  # e.g. every sin(...) ranges over the interval given for 'fn:sin'
+            coeff[key] = coeff.get(key, 0.0) + e
+        elif a.kind == 'base' or (a.kind == 'fn' and a.name == 'abs' and isinstance(a.args[0], Rat)):
+            c2, k2 = loglinear(a.args[0], ranges)
+            const += e * c2
+            for k, v in k2.items():
+                coeff[k] = coeff.get(k, 0.0) + e * v
+        else:
+            raise Unbounded(f'atom {T.show_atom(a)}')
+
+    def add_poly(p, sign: float):
+        nonlocal const
+        items = list(p.items())
+        if len(items) != 1:
+            raise Unbounded('sum')
+        mono, c = items[0]
+        if c == 0:
+            raise Unbounded('zero')
+        const += sign * math.log10(abs(float(F(c))))
+        for aid, e in mono:
+            add_atom(T.A(aid), sign * float(F(e)))
+
+    add_poly(r.num, 1.0)
+    if r.den is not T.ONE_P:
+        add_poly(r.den, -1.0)
+    return const, {k: v for k, v in coeff.items() if abs(v) > 1e-12}
+
+
+def conditional_interval(obj: tuple, cond: tuple, ranges, cond_range: tuple) -> tuple | None:
+    """Range of the log-linear form `obj` over the box `ranges` (log10 of positive intervals) intersected with
+    cond_range[0] <= cond <= cond_range[1].  Exact: the extremes of a linear function over a polytope are attained at
+    vertices, which are enumerated (n <= 5 variables).  None if the polytope is empty."""
+    import itertools
+
+    import numpy as np
+    c0, a = obj
+    d0, b = cond
+    names = sorted(set(a) | set(b))
+    n = len(names)
+    if n == 0:
+        return (c0, c0) if cond_range[0] <= d0 <= cond_range[1] else None
+    if n > 5:
+        raise Unbounded('too many variables')
+    lo = np.array([math.log10(ranges[k][0]) for k in names])
+    hi = np.array([math.log10(ranges[k][1]) for k in names])
+    av = np.array([a.get(k, 0.0) for k in names])
+    bv = np.array([b.get(k, 0.0) for k in names])
+    # constraints as rows g.y = h
+    planes = []
+    for i in range(n):
+        e = np.zeros(n)
+        e[i] = 1.0
+        planes.append((e, lo[i]))
+        planes.append((e, hi[i]))
+    if np.any(np.abs(bv) > 1e-12):
+        planes.append((bv, cond_range[0] - d0))
+        planes.append((bv, cond_range[1] - d0))
+    best_lo, best_hi = None, None
+    tol = 1e-7
+    for combo in itertools.combinations(range(len(planes)), n):
+        g = np.array([planes[i][0] for i in combo])
+        h = np.array([planes[i][1] for i in combo])
+        if abs(np.linalg.det(g)) < 1e-10:
+            continue
+        y = np.linalg.solve(g, h)
+        if np.any(y < lo - tol) or np.any(y > hi + tol):
+            continue
+        cv = d0 + float(bv @ y)
+        if cv < cond_range[0] - tol or cv > cond_range[1] + tol:
+            continue
+        v = c0 + float(av @ y)
+        best_lo = v if best_lo is None else min(best_lo, v)
+        best_hi = v if best_hi is None else max(best_hi, v)
+    return None if best_lo is None else (best_lo, best_hi)
